@@ -299,9 +299,15 @@ func GenUciSession(prop string, seed uint64) *Scenario {
 		curOpt[o.Name] = o.Default
 	}
 	wsRate := []float64{0, 0, 0.03, 0.15}[rng.Intn(4)]
+	nameCaseRate := []float64{0, 0, 0.1, 0.4}[rng.Intn(4)]
 	add := func(gap int64, op, line string) *Step {
 		if n, v, ok := parseSetOption(line); ok && op == "send" {
 			curOpt[n] = v
+			if n != "Print Config" && nameCaseRate > 0 && rng.Chance(nameCaseRate) {
+				// "the name of the option should not be case sensitive" (UCI)
+				alt := []string{strings.ToLower(n), strings.ToUpper(n)}[rng.Intn(2)]
+				line = strings.Replace(line, "name "+n, "name "+alt, 1)
+			}
 		}
 		sc.Steps = append(sc.Steps, Step{GapUs: gap, Op: op, Line: line})
 		if op == "send" && wsRate > 0 && rng.Chance(wsRate) {
